@@ -37,6 +37,12 @@ fn emit<const D: usize>(id: &str, w: &mut World<D>, op: &str, out: &mut Out, sta
             _ => out.obs("fvec", "err"),
         }
         if let Ok(Ok(k)) = catch(|| classify_triangulation(tds)) { out.obs("class", &format!("{k:?}").replace(' ', "")); }
+        // the same numbers through the validation entry point (f-vector, chi, verdict)
+        if let Ok(Ok(r)) = catch(|| delaunay::topology::characteristics::validation::validate_triangulation_euler(tds)) {
+            out.obs("fvec2", &r.counts.by_dim.iter().map(|x| x.to_string()).collect::<Vec<_>>().join(" "));
+            out.obs("chi2", &r.chi.to_string());
+            out.obs("euler_valid", if r.is_valid() { "1" } else { "0" });
+        }
         // adjacency index variants must agree with the direct ones
         let mut idx_same = String::from("1");
         let index = catch(|| tri.build_adjacency_index());
